@@ -11,7 +11,7 @@ from . import gen_socket as G
 INVS = ["ContractHolds", "AtMostOne", "AbandonedClosed", "NoWedge", "NoGiveUp", "ClosedIsFinal", "QueueBound"]
 
 BASE = dict(MaxConn=3, MaxTask=10, MaxMsg=2, MaxEnv=5, H=2, ConnSubs="FALSE", MsgSubs="FALSE", SubSends="FALSE", QCap=10,
-            F_ENQ="TRUE", F_DRAIN="TRUE", F_ONE="TRUE", F_CLOSE="TRUE", F_CAP="TRUE", F_CLOCK="TRUE", F_WAITCLOSE="TRUE", Stalls="FALSE", Record="FALSE")
+            F_ENQ="TRUE", F_DRAIN="TRUE", F_ONE="TRUE", F_CLOSE="TRUE", F_CAP="TRUE", F_CLOCK="TRUE", F_WAITCLOSE="TRUE", F_REOPEN="TRUE", Stalls="FALSE", Record="FALSE")
 
 
 def cfg(over=None, kinds="KindsBad", pols="PolMixed", invs=INVS, emit=False):
@@ -95,6 +95,10 @@ def to_harness(l2, proto, seed=0):
             b.op(op=k)
         elif k == "arm_pause":
             b.op(op="arm_pause", nth=1)
+        elif k == "call_seq":       # `await s.close(); s.open_socket()` in one user coroutine
+            i1, i2 = b.nid, b.nid + 1
+            b.nid += 2
+            b.op(op="call_seq", calls=[{"id": i1, "method": "close"}, {"id": i2, "method": "open_socket"}])
     b.heal()
     b.shutdown(k=rng.choice([None, 0, 1, 2, 3]))
     return b.script, {"enc": b.enc, "blockers": [], "proto": proto, "l2": l2}
